@@ -3,6 +3,7 @@ package refint
 import (
 	"bytes"
 	"fmt"
+	"sort"
 	"strings"
 
 	"verifharness/sx"
@@ -63,7 +64,7 @@ type Interp struct {
 	// Hooks for host builtins of the properties (probe/panic/…)
 	Captured []*Err
 	// NoTRO makes the chain bookkeeping treat no call as tail-merged.
-	form    *V   // form currently being evaluated (for error sites)
+	form *V // form currently being evaluated (for error sites)
 	// CallSigs, when non-nil, collects builtin-name(arg types) signatures.
 	CallSigs map[string]bool
 	evalEnv  *Env // lexical environment of the innermost call site (what `eval` sees)
@@ -547,4 +548,24 @@ func stampSite(v *V, site *sx.N, depth int) {
 			stampSite(c, site, depth+1)
 		}
 	}
+}
+
+// Signature describes one function of the modelled language package.
+type Signature struct {
+	Name     string
+	Kind     FunKind
+	Min, Max int
+}
+
+// Signatures lists the functions, operators and macros the model implements.
+func Signatures() []Signature {
+	in := New()
+	var out []Signature
+	for name, v := range in.Pkgs[LangPkg].Syms {
+		if v.K == KFun {
+			out = append(out, Signature{Name: name, Kind: v.Fn.Kind, Min: v.Fn.MinArgs, Max: v.Fn.MaxArgs})
+		}
+	}
+	sort.Slice(out, func(i, j int) bool { return out[i].Name < out[j].Name })
+	return out
 }
